@@ -39,6 +39,27 @@ theorem Sub.lookup_right {st : StructTable} {t t' : Ty} (h : Sub st t t') (ps : 
 
 /-! ## L1 -/
 
+theorem elemArr_narrow {st : StructTable} {F : Nat} (hF : NarrowFix st F) (b : String) (m a : Nat) (v : J)
+    (ix : Idx) : narrow st F ⟨b, m, a⟩ (elemArr v ix) = elemArr (narrow st F ⟨b, m, a + 1⟩ v) ix := by
+  cases ix with
+  | none => simp [elemArr, narrow_dnull hF]
+  | k s => simp [elemArr, narrow_dnull hF]
+  | i k =>
+    simp only [elemArr]
+    cases v with
+    | arr xs =>
+      rw [narrow_arr hF]
+      simp only [elemAt]
+      exact (getD_map_null _ (narrow_null hF _) xs k).symm
+    | dnull => simp [elemAt, narrow_dnull hF]
+    | null => simp [elemAt, narrow_null hF]
+    | atom s =>
+      have : narrow st F ⟨b, m, a + 1⟩ (.atom s) = .null := by rw [hF]; simp [atBase, mapArr]
+      simp [elemAt, this, narrow_null hF]
+    | obj kvs =>
+      have : narrow st F ⟨b, m, a + 1⟩ (.obj kvs) = .null := by rw [hF]; simp [atBase, mapArr]
+      simp [elemAt, this, narrow_null hF]
+
 section L1
 variable (st : StructTable) (hst : StructsOk st) (F : Nat) (hF : NarrowFix st F) (ρ : Store)
 include hst hF
@@ -142,7 +163,18 @@ theorem narrow_evalRT :
     simp only [HasTyR] at h
     simp only [evalRT, HasTyR]
     exact ⟨narrow_narrow hst hF hs _, Sub.trans hst h hs⟩
-  | .split _ _ _, _, _, _, h, _ => by simp [HasTyR] at h
+  | .split c false e, t, t', f, h, hs => by
+    obtain ⟨b, m, a⟩ := t
+    obtain ⟨b', m', a'⟩ := t'
+    simp only [HasTyR] at h
+    obtain ⟨hd1, hd2⟩ := hs.dims
+    simp only at hd1 hd2
+    subst hd1; subst hd2
+    have ih := narrow_evalRT e ⟨b, m, a + 1⟩ ⟨b', m, a + 1⟩ f h (hs.redim m (a + 1))
+    simp only [evalRT, HasTyR]
+    rw [elemArr_narrow hF, ih.1]
+    exact ⟨rfl, ih.2⟩
+  | .split _ true _, _, _, _, h, _ => by simp [HasTyR] at h
   | .merge _ _ _, _, _, _, h, _ => by simp [HasTyR] at h
   | .disabled _ _, _, _, _, h, _ => by simp [HasTyR] at h
   | .fork c ix e, t, t', f, h, hs => by
@@ -324,7 +356,15 @@ theorem proj1_evalRT :
         proj1_dims (pathTy st sty path) t d1 d2]
     · rw [pathTy_append]
       exact Sub.projTy1 hst h fld ft hft
-  | .split _ _ _, _, _, _, h, _ => by simp [HasTyR] at h
+  | .split c false e, t, fld, f, h, hfo => by
+    obtain ⟨b, m, a⟩ := t
+    simp only [HasTyR] at h
+    have ih := proj1_evalRT e ⟨b, m, a + 1⟩ fld f h hfo
+    rw [projTy1_arr] at ih
+    simp only [evalRT, bpR, HasTyR]
+    rw [← elemArr_proj1, ih.1]
+    exact ⟨rfl, ih.2⟩
+  | .split _ true _, _, _, _, h, _ => by simp [HasTyR] at h
   | .merge _ _ _, _, _, _, h, _ => by simp [HasTyR] at h
   | .disabled _ _, _, _, _, h, _ => by simp [HasTyR] at h
   | .fork c ix e, t, fld, f, h, hfo => by
